@@ -250,15 +250,15 @@ long long c_slice(long long nrows, long long ncols,
 
 	    zslice[i] = val1;
 
-	    if((fabs(dx)>tol && fabs(dy)<tol) || *idxcell1==*idxcell2)
+	    if((fabs(dx)>tol && fabs(dy)<tol) || *idxcell1==*idxcell3)
         {
-            zslice[i] = (val2-val1)/csz*dx+val1;
+            zslice[i] = (val2-val1)/csz*fabs(dx)+val1;
             continue;
         }
 
-        if((fabs(dx)<tol && fabs(dy)>tol) || *idxcell1==*idxcell3)
+        if((fabs(dx)<tol && fabs(dy)>tol) || *idxcell1==*idxcell2)
         {
-            zslice[i] = (val3-val1)/csz*dy+val1;
+            zslice[i] = (val3-val1)/csz*fabs(dy)+val1;
             continue;
         }
 
